@@ -155,11 +155,19 @@ def run(tier, seed):
                          "%s entry %s: %s" % (res["file"], p["id"], p.get("what", p["kind"])))
     ck.vacuity_twin("state-query (Z part of the pulled-back element is not identically zero)", twin_seen)
     ck.exhaustive = True
+    hist = tables.history_check()
+    ck.obligations += 1
+    if not hist:
+        ck.discharged += 1
+    for h in hist[:5]:
+        ck.candidate("history %d %s->%s id=%d" % (h["n"], h["first"], h["second"], h["id"]), dict(kind="history", **h), h["what"])
     return ck.finish()
 
 
 # ------------------------------------------------------------------------------------------------ replay
 def replay(case):
+    if case.get("kind") == "history":
+        return tables.replay_history(case)
     """native re-check of one entry with plain-Python oracles (dense simulation, LC-orbit BFS)"""
     import numpy as np
     from .. import dense
